@@ -40,6 +40,9 @@ WIDTH = {'b': 1, 's': 2, 'u': 2, 'I': 4, 'i': 4, 'l': 8}
 def place(n, pos):
     if pos == 'top':
         return 'value', n
+    if pos == 'mixed-array':             # n among integers of other signs and sizes
+        return 'array', [n, 5, -200, 70000, -n if abs(n) < 2 ** 63 else 0, 200,
+                         -70000, 40000, n, -3000000000, 3000000000]
     if pos == 'int-subclass':            # e.g. an enum.IntEnum / IntFlag member
         sub_ = canon.IntSub(n)
         return 'array', [sub_, {'k': sub_, 'j': [sub_]}]
@@ -94,6 +97,14 @@ def verify(n, pos, legacy, how):
                         (n, data[:12].hex()))
     tags = [t for t in refcodec.walk_tags(data, 0, kind) if t in INT_TAGS]
     expect = place(n, pos)
+    if pos == 'mixed-array':
+        # every element has its own first-fitting rung
+        each = [refcodec.int_tag(x, legacy)[0] for x in expect[1]]
+        if tags != each:
+            raise Violation('tag-mixed:%s' % ('legacy' if legacy else 'default'),
+                            'array %r with legacy=%s (via %s): tags %r, expected %r' %
+                            (expect[1], legacy, how, tags, each))
+        return want[0]
     count = sum(1 for x in S.walk(expect[1]) if type(x) in (int, canon.IntSub))
     if len(tags) != count or any(t != want[0] for t in tags):
         raise Violation('tag:%s:%s' % ('legacy' if legacy else 'default', want[0]),
@@ -118,7 +129,8 @@ def with_mode(mode, fn):
         encode.support_deprecated_rabbitmq(False)
 
 
-POSITIONS = ['top', 'array', 'table', 'nested', 'after-equal-float', 'int-subclass']
+POSITIONS = ['top', 'array', 'table', 'nested', 'after-equal-float', 'int-subclass',
+             'mixed-array']
 MODES = ['default', 'legacy-arg', 'legacy-noarg']
 
 
@@ -147,7 +159,7 @@ def ladder_bulk(tier, shard, nshards, rec):
             for k, v in enumerate(mine):
                 if k % 1024 == 0:
                     set_logging(k % 2048 == 0)
-                pos = POSITIONS[k % 6]
+                pos = POSITIONS[k % 7]
                 n += 1
                 if S.near_edge(v) or (legacy and pos == 'nested'):
                     nt += 1
